@@ -235,7 +235,7 @@ def build_runner():
         rc, out = coq_make(["Extract/Extract.vo"])
         if rc != 0:
             raise BuildError("extraction failed\n" + out[-3000:])
-        src = [os.path.join(COQ, "tt_model.ml")] + [os.path.join(VERIF, "runner", f) for f in ("sexp.ml", "glue.ml", "main.ml")]
+        src = [os.path.join(COQ, "tt_model.ml")] + [os.path.join(VERIF, "runner", f) for f in os.listdir(os.path.join(VERIF, "runner")) if f.endswith(".ml")]
         if os.path.exists(RUNNER_BIN) and all(os.path.getmtime(s) <= os.path.getmtime(RUNNER_BIN) for s in src):
             return
         sh([os.path.join(VERIF, "runner", "build.sh")], timeout=1200)
